@@ -19,6 +19,7 @@ pub mod c17;
 pub mod c18;
 pub mod c19;
 pub mod c20;
+pub mod c12;
 
 pub fn meta(id: &str, tier: &str) -> Option<CheckMeta> {
     match id {
@@ -40,6 +41,7 @@ pub fn meta(id: &str, tier: &str) -> Option<CheckMeta> {
         "C18" => Some(c18::meta(tier)),
         "C19" => Some(c19::meta(tier)),
         "C20" => Some(c20::meta(tier)),
+        "C12" => Some(c12::meta(tier)),
         _ => None,
     }
 }
@@ -78,6 +80,7 @@ pub fn worker(ctx: &Ctx, res: &mut ShardResult) {
         "C18" => c18::worker(ctx, res),
         "C19" => c19::worker(ctx, res),
         "C20" => c20::worker(ctx, res),
+        "C12" => c12::worker(ctx, res),
         _ => panic!("unknown check"),
     }
 }
@@ -106,6 +109,7 @@ pub fn replay(path: &str) -> i32 {
         "C18" => c18::replay(&v["case"]),
         "C19" => c19::replay(&v["case"]),
         "C20" => c20::replay(&v["case"]),
+        "C12" => c12::replay(&v["case"]),
         _ => vec![format!("no replayer for {}", id)],
     };
     let _ = json!(null);
